@@ -114,6 +114,19 @@ def step (st : St) (f : List String) : St × String :=
   | ["servers"] =>
     (st, st.lb.srvs.foldl (fun acc s => acc ++ " " ++ l2s (esc (render s.url)) ++ "," ++ toString s.w ++ ","
       ++ l2s (esc s.url.scheme) ++ "|" ++ l2s (esc s.url.host) ++ "|" ++ l2s (esc s.url.path)) "servers")
+  | ["mint", spec, u] =>
+    -- a foreign sticky session of codec `spec` runs `StickBackend(u)`; the client stores the value
+    match codecOf spec with
+    | none => (st, "bad-op")
+    | some c =>
+      match urlOf u with
+      | none => (st, "err badurl")
+      | some u =>
+        let w := setCookieWire st.ss.name (get stdEnv st.now c u)
+        let desc := l2s (esc (render u)) ++ "," ++ l2s (esc u.scheme) ++ "|" ++ l2s (esc u.host) ++ "|" ++ l2s (esc u.path)
+        match w with
+        | some w => ({ st with jar := w :: st.jar }, "minted v:" ++ l2s (esc w) ++ " " ++ desc)
+        | none => (st, "minted none " ++ desc)
   | ["codec", spec] =>
     match codecOf spec with
     | some c => ({ st with ss := { st.ss with codec := c } }, "ok")
